@@ -18,6 +18,7 @@ import (
 	"runtime"
 	"strconv"
 	"strings"
+	"sync/atomic"
 	"time"
 
 	"github.com/pinealctx/neptune/syncx/pipe/mux"
@@ -44,6 +45,7 @@ type sig struct {
 	res    result
 	grant  chan struct{}
 	caller bool // arrive: the instrumented call is being made by the goroutine of the job's own caller
+	stopper bool // arrive: ... by the goroutine that is inside WorkerGrp.Stop
 }
 
 // id of the calling goroutine ("goroutine 123 [running]:")
@@ -84,6 +86,9 @@ type ctl struct {
 	ocs     map[int]*opCtx
 	called  map[int]bool // jobs whose call has been started
 	gone    map[int]bool // jobs whose caller has given up while they were being handled
+	stopGid  int64 // goroutine that is inside WorkerGrp.Stop (atomic)
+	stopping bool  // Stop has been called and has not returned
+	sparked  *sig  // a call the stopping goroutine itself is parked in front of (no model run has this)
 	out     []labelObs
 	broken  string
 }
@@ -430,7 +435,7 @@ func (c *ctl) doStep(l label) {
 		r := s.res
 		lo.Fin = &r
 		c.pending[w]--
-		if c.pending[w] > 0 {
+		if c.pending[w] > 0 && !c.stopping {
 			if !c.awaitArrival(l, w) {
 				return
 			}
@@ -452,9 +457,97 @@ func (c *ctl) doStep(l label) {
 	c.out = append(c.out, lo)
 }
 
+// Stop runs on a goroutine of its own: it returns at once in the code as it is, but a Stop that ran handlers itself
+// would park at the gates like a worker and must not take the scheduler with it
 func (c *ctl) doStop(l label) {
-	c.grp.Stop()
+	c.stopping = true
+	go func() {
+		atomic.StoreInt64(&c.stopGid, gid())
+		c.grp.Stop()
+		c.sigs <- sig{kind: "stopped"}
+	}()
+	s, ok := c.wait()
+	switch {
+	case !ok:
+		c.anomaly(l, "Stop did not return within 10 s")
+		return
+	case s.kind == "stopped":
+		c.stopping = false
+	case s.kind == "arrive" && s.stopper:
+		arr := s
+		c.sparked = &arr
+	default:
+		c.anomaly(l, fmt.Sprintf("unexpected signal %s(job %d, cache %d) during Stop", s.kind, s.job, s.w))
+		return
+	}
 	lo := labelObs{L: l, Ans: "stopped"}
+	if c.sparked != nil {
+		lo.Note = "the goroutine inside Stop is about to make a handler's call itself"
+	}
+	c.snapshot(&lo)
+	c.out = append(c.out, lo)
+}
+
+// the worker whose queue the call the stopping goroutine is parked in belongs to
+func (c *ctl) sparkedWorker() int {
+	p := c.sparked
+	if p.w >= 0 {
+		return p.w
+	}
+	if p.job >= 0 && p.job < len(c.s.Jobs) {
+		return route(&c.s.G, c.s.Jobs[p.job].K)
+	}
+	return 0
+}
+
+// release the call the goroutine inside Stop is parked in front of: it is written down as a step of that worker's queue
+func (c *ctl) doSStep(l label) {
+	p := c.sparked
+	if p == nil {
+		c.anomaly(l, "no call of the stopping goroutine is parked")
+		return
+	}
+	w := c.sparkedWorker()
+	m := c.h.mark()
+	c.sparked = nil
+	lo := labelObs{L: label{Kind: "sstep", W: w}, Ans: "step", ID: p.job, Note: "made by the goroutine that called Stop"}
+	close(p.grant)
+	for done := false; !done; {
+		s, ok := c.wait()
+		switch {
+		case !ok:
+			c.anomaly(l, "the goroutine inside Stop made no observable progress within 10 s")
+			return
+		case s.kind == "arrive" && s.stopper:
+			arr := s
+			c.sparked = &arr
+			done = true
+		case s.kind == "stopped":
+			c.stopping = false
+			done = true
+		case s.kind == "returned":
+			// a handler run by the stopping goroutine has answered its caller
+			if s.job == p.job {
+				r := s.res
+				lo.Fin = &r
+			}
+			if s.job >= 0 && s.job < len(c.s.Jobs) {
+				c.pending[route(&c.s.G, c.s.Jobs[s.job].K)]--
+			}
+		default:
+			c.anomaly(l, fmt.Sprintf("unexpected signal %s(job %d, cache %d) while the stopping goroutine was running", s.kind, s.job, s.w))
+			return
+		}
+	}
+	evs := c.h.since(m)
+	if len(evs) != 1 {
+		c.anomaly(l, fmt.Sprintf("one released call of the stopping goroutine made %d instrumented calls", len(evs)))
+		return
+	}
+	lo.Ev = evs[0]
+	if lo.Ev.Op >= 0 {
+		lo.ID = lo.Ev.Op
+	}
 	c.snapshot(&lo)
 	c.out = append(c.out, lo)
 }
@@ -492,7 +585,9 @@ func runConcMode(s *concSpec, r *rand.Rand, prefixOnly bool) (out []labelObs, en
 		if oc != nil {
 			id = oc.id
 		}
-		c.sigs <- sig{kind: "arrive", job: id, w: cacheIdx, grant: gr, caller: oc != nil && oc.gid != 0 && oc.gid == gid()}
+		me := gid()
+		c.sigs <- sig{kind: "arrive", job: id, w: cacheIdx, grant: gr, caller: oc != nil && oc.gid != 0 && oc.gid == me,
+			stopper: atomic.LoadInt64(&c.stopGid) == me}
 		<-gr
 	}
 	c.grp = buildGroup(g, h)
@@ -511,10 +606,15 @@ func runConcMode(s *concSpec, r *rand.Rand, prefixOnly bool) (out []labelObs, en
 			c.doCStep(l)
 		case "abandon":
 			c.doAbandon(l)
+		case "sstep":
+			c.doSStep(l)
 		}
 	}
 	// whatever is still parked is let go, worker calls first
 	drainOne := func() (label, bool) {
+		if c.sparked != nil {
+			return label{Kind: "sstep", W: c.sparkedWorker()}, true
+		}
 		for _, w := range c.parkedWorkers() {
 			if c.abandonable(w) {
 				return label{Kind: "abandon", W: w}, true
@@ -550,6 +650,9 @@ func runConcMode(s *concSpec, r *rand.Rand, prefixOnly bool) (out []labelObs, en
 		if prefixOnly && c.broken == "" {
 			if i, ok := c.nextCall(); ok {
 				enabled = append(enabled, label{Kind: "call", Job: i})
+			}
+			if c.sparked != nil {
+				enabled = append(enabled, label{Kind: "sstep", W: c.sparkedWorker()})
 			}
 			for _, w := range c.parkedWorkers() {
 				if c.abandonable(w) {
@@ -592,6 +695,26 @@ func runConcMode(s *concSpec, r *rand.Rand, prefixOnly bool) (out []labelObs, en
 				opts = append(opts, opt{label{Kind: "call", Job: next}, 2 * burst})
 			}
 			ncalled := len(c.called)
+			if c.sparked != nil {
+				opts = append(opts, opt{label{Kind: "sstep", W: c.sparkedWorker()}, 8})
+			}
+			// Stop while a worker is inside a store callback with further requests queued behind it: first queue everything,
+			// then run until some worker is parked in front of a store callback, then Stop
+			forceStop := false
+			if s.Class == "stopdrain/" && !stopped {
+				if more {
+					ws = nil
+				} else {
+					for _, w := range ws {
+						if p := c.parked[w]; p.w < 0 && c.pending[w] >= 2 {
+							forceStop = true
+						}
+					}
+					if forceStop {
+						ws = nil
+					}
+				}
+			}
 			for _, w := range ws {
 				if c.abandonable(w) {
 					opts = append(opts, opt{label{Kind: "abandon", W: w}, 6})
@@ -601,6 +724,9 @@ func runConcMode(s *concSpec, r *rand.Rand, prefixOnly bool) (out []labelObs, en
 			}
 			for _, j := range c.parkedCallers() {
 				opts = append(opts, opt{label{Kind: "cstep", Job: j}, 1})
+			}
+			if forceStop {
+				opts = append(opts, opt{label{Kind: "stop"}, 1})
 			}
 			if wantStop && !stopped && ncalled > len(s.Jobs)/2 {
 				opts = append(opts, opt{label{Kind: "stop"}, 1})
@@ -777,6 +903,8 @@ func concCase(s *concSpec, out []labelObs, clean bool) vh.Case {
 			kind = "cstep"
 		}
 		switch kind {
+		case "sstep":
+			lab = "(GStep " + vh.CoqZ(int64(lo.L.W)) + ")"
 		case "abandon":
 			lab = "(GAbandon " + vh.CoqZ(int64(lo.L.W)) + ")"
 		case "cstep":
@@ -791,6 +919,8 @@ func concCase(s *concSpec, out []labelObs, clean bool) vh.Case {
 		items = append(items, fmt.Sprintf("(%s, %s, %s, %s)", lab, lo.coqAnswer(), coqCacheSnap(lo.CacheV, lo.CacheH), coqStoreSnap(lo.StoreV)))
 		d := map[string]interface{}{}
 		switch lo.L.Kind {
+		case "sstep":
+			d["label"] = fmt.Sprintf("release the goroutine that called Stop (it is running a request of worker %d's queue)", lo.L.W)
 		case "abandon":
 			d["label"] = fmt.Sprintf("the caller of the job worker %d is running gives up (context cancelled)", lo.L.W)
 		case "cstep":
@@ -983,4 +1113,26 @@ func genAbandon(r *rand.Rand) *concSpec {
 		jobs = append(jobs, opSpec{Op: opGet, K: k, Faults: []int{1}})
 	}
 	return &concSpec{G: g, Jobs: jobs, Class: "abandon/"}
+}
+
+
+// Stop while a worker is inside a store callback and further requests for the same key are queued behind it.
+func genStopDrain(r *rand.Rand) *concSpec {
+	g := grpSpec{Wrapped: true, N: []int{1, 1, 2}[r.Intn(3)], Cap: []int{-1, -1, 2, 100}[r.Intn(4)], Kind: r.Intn(nKinds)}
+	genUniverse(r, &g, 2)
+	hot := g.Univ[0]
+	g.InitL = [][2]int64{{hot, int64(1 + r.Intn(90))}}
+	jobs := []opSpec{}
+	writes := []int{opUpdate, opUpdate, opUpsertLoad, opUpsertRenew, opUpdOrAdd}
+	for n := 3 + r.Intn(3); n > 0; n-- {
+		k := hot
+		if len(g.Univ) > 1 && r.Intn(5) == 0 {
+			k = g.Univ[1]
+		}
+		jobs = append(jobs, opSpec{Op: writes[r.Intn(len(writes))], K: k, D: int64(r.Intn(100))})
+	}
+	for _, k := range g.Univ {
+		jobs = append(jobs, opSpec{Op: opGet, K: k, Faults: []int{1}})
+	}
+	return &concSpec{G: g, Jobs: jobs, Class: "stopdrain/"}
 }
